@@ -15,7 +15,8 @@ Watched == <<<<95, 115, 118, 99>>, <<95, 116, 99, 112>>, <<108, 111, 99, 97, 108
 Other == <<<<95, 115, 118, 99, 50>>, <<95, 116, 99, 112>>, <<108, 111, 99, 97, 108>>>>     \* _svc2._tcp.local
 \* a b ab p1 me (me = own) and A, Ab, Me: names that differ from another one only in letter case are different
 \* instances (and Me is not the discoverer's own instance)
-InstNames == {<<97>>, <<98>>, <<97, 98>>, <<112, 49>>, <<109, 101>>, <<65>>, <<65, 98>>, <<77, 101>>}
+InstNames == {<<97>>, <<98>>, <<97, 98>>, <<112, 49>>, <<109, 101>>, <<65>>, <<65, 98>>, <<77, 101>>,
+              <<99, 233>>, <<252, 98, 101, 114>>}          \* c + e-acute, u-umlaut + ber: names are Unicode text
 Ips == {<<4, 10, 0, 0, 1>>, <<4, 10, 0, 0, 2>>, <<6, 0, 0, 0, 0, 0, 0, 0, 0, 0, 0, 0, 0, 0, 0, 0, 1>>, <<6, 0, 0, 0, 0, 0, 0, 0, 0, 0, 0, 255, 255, 10, 0, 0, 1>>}
 Ports == {80, 8080}
 \* k, path, ab, and keys / values with leading, trailing and lone spaces (attribute text is carried verbatim)
